@@ -164,6 +164,8 @@ def property_checks(inp):
         A(("photons_per_mag ~ exposure", _rel(astro.photons_per_mag(mag, mask, ps, 100., s * t), s * astro.photons_per_mag(mag, mask, ps, 100., t)), 1e-9))
     if mask.sum() > 0:
         # the composite is the elementary converter times exposure time times area, and inverts back to the magnitude -- in every band
+        A(("photons_per_mag = 1000 x 10^(-mag/2.5) per s, cm^2 and Angstrom x band x area x exposure (any mask shape)",
+           _rel(astro.photons_per_mag(mag, mask, ps, 100., t), 1000. * 10 ** (-mag / 2.5) * (100. * 10) * (mask.sum() * ps ** 2 * 1e4) * t), 1e-9))
         worst_b, worst_i = 0.0, 0.0
         for bb in BANDS:
             ph = astro.photons_per_band(mag, mask, ps, t, bb)
@@ -211,10 +213,11 @@ def gen_input(rng):
     shape = tuple(rng.randint(1, 4) for _ in range(rank))
     npr = rng.nprng()
     n_m = rng.randint(1, 4)
+    rng_cols = n_m if rng.random() < 0.5 else rng.randint(1, 7)        # pupil arrays need not be square (strips, padded or cropped masks)
     return {"cn2": rng.loguniform(1e-15, 1e-11), "lam": rng.loguniform(3e-7, 3e-6), "r0": rng.loguniform(0.02, 2.0),
             "seeing": rng.loguniform(0.1, 5.0), "s": rng.loguniform(0.2, 5.0), "mag": rng.uniform(-2, 22),
             "flux": rng.loguniform(1e-2, 1e12), "band": rng.choice(BANDS), "w": rng.loguniform(3e-7, 3e-6),
-            "d": rng.loguniform(0.05, 2.0), "mask": [[float(rng.random() < 0.7) for _ in range(n_m)] for _ in range(n_m)],
+            "d": rng.loguniform(0.05, 2.0), "mask": [[float(rng.random() < 0.7) for _ in range(rng_cols)] for _ in range(n_m)],
             "ps": rng.loguniform(0.01, 1.0), "t": rng.loguniform(1e-3, 10), "nfr2": rng.randint(2, 6), "nsub": rng.randint(1, 4), "offsets": [rng.uniform(-3, 3) for _ in range(4)],
             "v": rng.loguniform(1, 60), "h": rng.loguniform(100, 20000),
             "stack": (10 ** npr.uniform(-16, -12, size=shape)).tolist(),
